@@ -105,6 +105,27 @@ impl<F> MiniAllocator<F> {
         self.directory.dir_entry(stream_id)
     }
 
+    pub fn dir_entry_generation(&self, stream_id: u32) -> u32 {
+        self.directory.dir_entry_generation(stream_id)
+    }
+
+    /// Returns the directory entry of the stream that a `Stream` was opened
+    /// on (when the entry's generation was `generation`), or an error if that
+    /// stream has since been removed.
+    pub fn stream_dir_entry(
+        &self,
+        stream_id: u32,
+        generation: u32,
+    ) -> io::Result<&DirEntry> {
+        let dir_entry = self.directory.dir_entry(stream_id);
+        if self.directory.dir_entry_generation(stream_id) != generation
+            || dir_entry.obj_type != ObjType::Stream
+        {
+            not_found!("Stream has been removed");
+        }
+        Ok(dir_entry)
+    }
+
     fn validate(&mut self, validation: Validation) -> io::Result<()> {
         let root_entry = self.directory.root_dir_entry();
         let root_stream_mini_sectors =
